@@ -62,6 +62,7 @@ type Ctx struct {
 	Res   *Result
 	Knobs map[string]string
 	hash  uint64
+	leftover int // goroutines of exited simulated processes left blocked (see Bubble)
 	sig   uint64
 }
 
@@ -189,6 +190,7 @@ func (c *Ctx) FinishSim(s *simrt.Sim, v *simrt.Verdict) {
 	r.Hash = strconv.FormatUint(c.hash, 16)
 	r.Sig = strconv.FormatUint(c.sig, 16)
 	r.SimNS += int64(s.Now())
+	c.leftover += s.Leftover
 	r.Strategy = s.Strat.Name
 	r.Gs = s.NumGoroutines()
 	for k, n := range s.Probes {
@@ -307,6 +309,19 @@ func (c *Ctx) emitAndExitIfFailed() {
 // emitted and the process exits from inside the bubble, because a failed
 // simulation leaves frozen goroutines behind and the bubble could not end.
 func (c *Ctx) Bubble(f func()) {
+	defer func() {
+		// Goroutines of simulated processes that exited while those goroutines
+		// were blocked for good stay blocked in the bubble (nothing can end
+		// them from outside); synctest reports that when the bubble ends. It is
+		// the simulator's stand-in for "the process is gone", not a finding.
+		if r := recover(); r != nil {
+			if c.leftover > 0 && strings.Contains(fmt.Sprint(r), "blocked goroutines remain") {
+				c.Probe("threads-of-an-exited-process-left-blocked")
+				return
+			}
+			panic(r)
+		}
+	}()
 	synctest.Test(workerT, func(t *testing.T) {
 		f()
 		c.emitAndExitIfFailed()
